@@ -189,14 +189,25 @@ type World struct {
 }
 
 type entry struct {
-	key   string
-	val   []byte
-	rev   uint64
-	stall func()
+	key    string
+	val    []byte
+	rev    uint64
+	stall  func() // inside Revision(): answers to reads (Rule.Stall)
+	stallV func() // inside Value(): delivered watch entries (WatchPlan.Stall)
 }
 
-func (e *entry) Key() string   { return e.key }
-func (e *entry) Value() []byte { return e.val }
+func (e *entry) Key() string { return e.key }
+
+// Value: the goroutine that handles a delivered watch entry can be descheduled when it first looks at the entry
+// (WatchPlan.Stall: for that long, or until its own instance's claim changes, whichever comes first).
+func (e *entry) Value() []byte {
+	if e.stallV != nil {
+		f := e.stallV
+		e.stallV = nil
+		f()
+	}
+	return e.val
+}
 
 // Revision: a reader of an answer can be descheduled between looking at the value and looking at the revision
 // (Rule.Stall: for that long, or until its own instance raises the claim, whichever comes first).
@@ -725,7 +736,22 @@ func (sw *simWatcher) pump() {
 				isnil = 1
 			} else {
 				v = w.tr.valLocked(e.Value)
-				le = &entry{key: sw.rw.Key(), val: e.Value, rev: e.Rev}
+				en := &entry{key: sw.rw.Key(), val: e.Value, rev: e.Rev}
+				if st := sw.plan.Stall; st > 0 {
+					in := sw.in
+					en.stallV = func() {
+						was := in.el != nil && in.el.IsLeader()
+						w.tr.rec("envmark", 14, int64(in.idx), st)
+						w.fire(in.idx, "stall")
+						for t := int64(0); t < st && in.el.IsLeader() == was; t += int64(time.Millisecond) {
+							time.Sleep(time.Millisecond)
+						}
+						for k := 0; k < 8; k++ {
+							runtime.Gosched()
+						}
+					}
+				}
+				le = en
 			}
 			w.tr.recLocked("wsend", int64(sw.in.idx), sw.id, int64(n), isnil, int64(e.Rev), v)
 			w.tr.mu.Unlock()
